@@ -156,3 +156,37 @@ Proof.
               fuel o osl src dst matches (cst_init f0) s' res C (lok_init c f0 dr dcs) eq_refl Hnul Hm' Rk0 H) as (_ & Rk).
   exact Rk.
 Qed.
+
+(* ---- overlapping roots: what is static whatever the roots ----
+   A directory that existed before the copy and is reached from a (below srcRoot, say) through real
+   directories in a state of the copy was reached by the same names initially: the copier never links or
+   moves an old directory, and new directories contain no old ones. *)
+Lemma inv_chain_old f0 dr f : Inv f0 dr f -> forall a ns d, chain f a ns d -> d < f_next f0 ->
+  chain f0 a ns d /\ a < f_next f0.
+Proof.
+  intros I. induction 1 as [d Hd|d x i cs e Hb Hi Hc IH]; intros Hold.
+  - split; auto. constructor. rewrite <- (is_dir_old f0 dr f d I Hold). exact Hd.
+  - destruct (IH Hold) as [Hc0 Hio].
+    destruct (inv_dent f0 dr f I d x i Hb Hi) as [[H1 _]|(Hd & _ & Hb0)]; [lia|].
+    split; auto. econstructor; eauto. rewrite <- (is_dir_old f0 dr f i I Hio). exact Hi.
+Qed.
+
+Theorem copy_old_dirs_static_proof fuel c o osl scs src dcs dst matches f0 dr sr s' res :
+  fs_wf f0 ->
+  forallb name_ok dcs = true -> chain f0 (c_root c) dcs dr -> (length dcs < rfuel)%nat ->
+  forallb name_ok scs = true -> chain f0 (c_root c) scs sr -> (length scs < rfuel)%nat ->
+  (scs = dcs \/ ~ inside_dir f0 dr sr) ->
+  has_nul src = false -> (forall l, matches = Some l -> forallb (fun m => negb (has_nul m)) l = true) ->
+  copy_top fuel c o osl (render scs) src (render dcs) dst matches (cst_init f0) = (s', res) ->
+  forall a ns d, chain (s_fs s') a ns d -> d < f_next f0 -> chain f0 a ns d.
+Proof.
+  intros W Hdn Hdc Hdl Hsn Hsc Hsl Hsd Hnul Hm H a ns d Hch Hold.
+  pose proof (wf_ctx c f0 dr dcs W Hdn Hdc Hdl) as C.
+  assert (Hsr : forall f, Ctx c f0 dr dcs f -> forall ino fi, snd (sys_lstat c f (render scs)) = RStat ino fi -> kind_is_dir fi = true).
+  { intros f Cf. eapply src_root_dir; eauto. apply W. }
+  assert (Hm' : forall l, matches = Some l -> Forall (fun m => has_nul m = false) l).
+  { intros l El. specialize (Hm l El). rewrite forallb_forall in Hm. apply Forall_forall. intros x Hx.
+    apply negb_true_iff. apply Hm. exact Hx. }
+  pose proof (copy_top_spec c f0 dr dcs (render scs) Hsr fuel o osl src dst matches (cst_init f0) s' res C (lok_init c f0 dr dcs) eq_refl Hnul Hm' H) as C'.
+  apply (inv_chain_old f0 dr (s_fs s') (cx_inv _ _ _ _ _ C') a ns d Hch Hold).
+Qed.
